@@ -141,7 +141,9 @@ def rest_api():
     fb.message("PostRequest", [("parent", "string", {"required": True}), ("book_id", "string", {"required": True}),
                                ("r_int", "int32", {"required": True}), ("extra", "string")])
     fb.message("PatchRequest", [("book", "msg:Book", {"required": True}), ("r_str", "string", {"required": True})])
-    fb.message("DeleteRequest", [("name", "string", {"required": True}), ("etag", "string", {"required": True})])
+    # `rev` is required AND proto3-optional (lives in a synthetic oneof): it still needs its typed default
+    fb.message("DeleteRequest", [("name", "string", {"required": True}), ("etag", "string", {"required": True}),
+                                 ("rev", "int64", {"required": True, "optional": True})])
     fb.message("TwoVarRequest", [("parent", "string", {"required": True}), ("chapter_id", "string", {"required": True}),
                                  ("view", "string", {"required": True})])
     fb.message("NoHttpRequest", [("name", "string")])
@@ -173,6 +175,10 @@ def retry_api():
     s = fb.service("Library")
     for m in ("GetBook", "GetBookCover", "DeleteBook", "ListShelves", "Import"):
         fb.method(s, m, "Req", "Book", http=("get", "/v1/{name=books/*}:" + m.lower()))
+    # streaming RPCs named in a methodConfig entry keep its retry policy and timeout like any other RPC
+    fb.method(s, "UploadBooks", "Req", "Book", cstream=True)
+    fb.method(s, "ChatBooks", "Req", "Book", cstream=True, sstream=True)
+    fb.method(s, "WatchBooks", "Req", "Book", http=("get", "/v1/{name=books/*}:watch"), sstream=True)
     s2 = fb.service("Other")
     fb.method(s2, "GetBook", "Req", "Book", http=("get", "/v1/{name=others/*}"))
     return [fb]
@@ -192,6 +198,11 @@ RETRY_CONFIGS = [
         {"name": [{"service": "google.example.rt.v1.Library", "method": "ListShelves"}], "timeout": "5s",
          "retryPolicy": {"initialBackoff": "0.25s", "maxBackoff": "8s", "backoffMultiplier": 1,
                          "retryableStatusCodes": ["UNAVAILABLE"]}},
+        {"name": [{"service": "google.example.rt.v1.Library", "method": "UploadBooks"},
+                  {"service": "google.example.rt.v1.Library", "method": "ChatBooks"},
+                  {"service": "google.example.rt.v1.Library", "method": "WatchBooks"}], "timeout": "11s",
+         "retryPolicy": {"initialBackoff": "0.5s", "maxBackoff": "4s", "backoffMultiplier": 2,
+                         "retryableStatusCodes": ["ABORTED", "UNAVAILABLE"]}},
     ]},
     {"methodConfig": [
         {"name": [{"service": "google.example.rt.v1.Other", "method": "GetBook"}], "timeout": "1500000000n",
@@ -204,10 +215,12 @@ RETRY_CONFIGS = [
 
 
 def lro_api():
-    idx = gen.FileBuilder("google/example/lr/v1/index.proto", "google.example.lr.v1")
+    # the file is called operation.proto on purpose: its module collides with google.api_core.operation, so the
+    # emitted client has to use the collision alias consistently (import, annotation, from_gapic call)
+    idx = gen.FileBuilder("google/example/lr/v1/operation.proto", "google.example.lr.v1")
     idx.message("IndexReport", [("pages", "int32")])
     idx.message("IndexMetadata", [("progress", "int32")])
-    fb = gen.FileBuilder("google/example/lr/v1/library.proto", "google.example.lr.v1")   # does NOT import index.proto
+    fb = gen.FileBuilder("google/example/lr/v1/library.proto", "google.example.lr.v1")   # does NOT import operation.proto
     fb.message("Book", [("name", "string")])
     fb.message("WriteMetadata", [("progress", "int32")])
     fb.message("Req", [("name", "string")])
@@ -252,4 +265,34 @@ def samples_api():
     # a second service on a different host: region tags carry the owning service's host short name
     a = fb.service("Archive", host="libarchive.googleapis.com")
     fb.method(a, "GetRecord", "GetBookRequest", "Book", http=("get", "/v1/{name=records/*}"))
+    return [fb]
+
+
+def compute_api(scopes=("Global", "Region", "Zone")):
+    """Compute-style extended operations: the Addresses service starts operations that are polled through one
+    operation service per scope (C10: a SET of services reaches the transport templates; C16 uses a smaller variant)."""
+    from google.api import client_pb2
+    from lib.gen import ex_ops_pb2
+    pkg = "google.example.cp.v1"
+    fb = gen.FileBuilder("google/example/cp/v1/compute.proto", pkg)
+    fb.enum("OpStatus", ["UNDEFINED_STATUS", "DONE"])
+    op = fb.message("Operation", [("name", "string"), ("http_error_message", "string"), ("http_error_status_code", "int32"),
+                                  ("status", "enum:OpStatus")])
+    for f, role in zip(op.field, (ex_ops_pb2.NAME, ex_ops_pb2.ERROR_MESSAGE, ex_ops_pb2.ERROR_CODE, ex_ops_pb2.STATUS)):
+        f.options.Extensions[ex_ops_pb2.operation_field] = role
+    fb.message("Address", [("address", "string")])
+    for scope in scopes:
+        g = fb.message(f"Get{scope}OperationRequest", [("operation", "string", {"required": True}), ("project", "string", {"required": True})])
+        g.field[0].options.Extensions[ex_ops_pb2.operation_response_field] = "name"
+        fb.message(f"Insert{scope}AddressRequest", [("address_resource", "msg:Address"), ("project", "string")])
+        svc = fb.service(f"{scope}Operations", "compute.googleapis.com")
+        m = fb.method(svc, "Get", f"Get{scope}OperationRequest", "Operation",
+                      http=("get", "/compute/v1/projects/{project}/%s/operations/{operation}" % scope.lower()), sigs=["project,operation"])
+        m.options.Extensions[ex_ops_pb2.operation_polling_method] = True
+    a = fb.service("Addresses", "compute.googleapis.com")
+    for scope in scopes:
+        m = fb.method(a, f"Insert{scope}", f"Insert{scope}AddressRequest", "Operation",
+                      http=("post", "/compute/v1/projects/{project}/%s/addresses" % scope.lower(), "address_resource"),
+                      sigs=["project,address_resource"])
+        m.options.Extensions[ex_ops_pb2.operation_service] = f"{scope}Operations"
     return [fb]
